@@ -142,10 +142,10 @@ def isAnyPattern (s : List Char) : Bool :=
 /-- `_make_x_constraint_range` (is_marker_constraint selects the dev-release adjustment) -/
 def makeXConstraintRange (v : Version) (invert : Bool) (isMarker : Bool) : PyM VC :=
   let next :=
-    if v.isPostrelease then v.nextPostrelease
+    if v.isDevrelease then v.nextDevrelease
+    else if v.isPostrelease then v.nextPostrelease
     else if v.isStable then v.nextStable
-    else if v.isPrerelease then v.nextPrerelease
-    else v.nextDevrelease
+    else v.nextPrerelease   -- not dev, not post, not stable: a pre-release (the code's `else: raise RuntimeError` is unreachable)
   let mn := if isMarker then v else v.firstDevrelease
   let mx := if isMarker then next else (if !next.isDevrelease then next.firstDevrelease else next)
   let result : VRange := ⟨some mn, some mx, true, false⟩
